@@ -1677,11 +1677,16 @@ class PyCdlib:
 
             num_seen_efi = 0
             for enc in enc_to_update:
-                if id(enc.entry.inode) in linked_inodes:
-                    continue
-
-                enc.entry.set_data_location(current_extent,
-                                            current_extent - part_start)
+                # An entry whose data was already placed with an earlier
+                # entry (two entries booting one file) still describes a
+                # partition of the hybridization.
+                placed = id(enc.entry.inode) in linked_inodes
+                entry_extent = current_extent
+                if placed:
+                    entry_extent = enc.entry.inode.extent_location()
+                else:
+                    enc.entry.set_data_location(current_extent,
+                                                current_extent - part_start)
 
                 if self.isohybrid_mbr is not None:
                     if enc.platform_id == 0xef:
@@ -1689,15 +1694,18 @@ class PyCdlib:
                         # asked to describe are filled in; any further EFI
                         # entries are plain El Torito entries.
                         if num_seen_efi == 0 and self.isohybrid_mbr.efi:
-                            self.isohybrid_mbr.update_efi(current_extent,
+                            self.isohybrid_mbr.update_efi(entry_extent,
                                                           enc.entry.sector_count,
                                                           self.pvd.space_size * self.logical_block_size)
                         elif num_seen_efi == 1 and self.isohybrid_mbr.mac:
-                            self.isohybrid_mbr.update_mac(current_extent,
+                            self.isohybrid_mbr.update_mac(entry_extent,
                                                           enc.entry.sector_count)
                         num_seen_efi += 1
-                    elif enc.platform_id == 0:
-                        self.isohybrid_mbr.update_rba(current_extent)
+                    elif enc.platform_id == 0 and not placed:
+                        self.isohybrid_mbr.update_rba(entry_extent)
+
+                if placed:
+                    continue
 
                 current_extent = self._set_inode(enc.entry.inode, current_extent,
                                                  part_start)
